@@ -39,6 +39,7 @@ type scen struct {
 	Active   bool   `json:"active"`
 	Sync     int    `json:"sync"`     // synchronous W sends awaiting a reply when the generation ends
 	Blocked  bool   `json:"blocked"`  // one more synchronous send is blocked mid-write (peer window closed)
+	Early    bool   `json:"early"`    // (with Blocked) the header got through and the peer already replied to it
 	Async    int    `json:"async"`    // fire-and-forget sends queued (behind the blocked write when Blocked)
 	End      string `json:"end"`      // peerClose | peerReset | writeTimeout | close | linktest | t8 | separate
 	Refusals int    `json:"refusals"` // failed dials before the reconnect succeeds (active)
@@ -132,7 +133,23 @@ func run(t *testing.T, sc scen, onLeak func(string)) (fail *failure, outcome str
 				}
 			}
 		}
-		if sc.Blocked {
+		if sc.Blocked && sc.Early {
+			// the peer's window takes the 14-byte length+header and then closes: the body write
+			// blocks. The peer has seen the header, so it can answer at once — a reply that is
+			// routed to a transaction whose sender will never consume it (its write fails).
+			gen1.SetWindow(14)
+			c := send(1, "blocked", 0)
+			chunks := gen1.Received()
+			if n := len(chunks); n > 0 && len(chunks[n-1].Data) == 14 && chunks[n-1].Data[9] == 0 {
+				h := chunks[n-1].Data
+				c.sys = uint32(h[10])<<24 | uint32(h[11])<<16 | uint32(h[12])<<8 | uint32(h[13])
+				_, _ = gen1.Write(peer.Data(0xFFFF, 1, 2, false, c.sys, []byte{0x41, 5, 'e', 'a', 'r', 'l', 'y'}).Bytes())
+				w.Settle()
+			} else {
+				bad("harness", "early-reply setup: the blocked send's header was not the last chunk on the wire")
+				return
+			}
+		} else if sc.Blocked {
 			gen1.Stall()
 			send(1, "blocked", 0)
 		}
@@ -192,6 +209,9 @@ func run(t *testing.T, sc scen, onLeak func(string)) (fail *failure, outcome str
 			if !c.call.Done() {
 				bad("stale-waiter:"+c.kind+":"+sc.End, "send %s of generation 1 still has not returned %v after the generation ended (%s)", c.token, w.Now()-tEnd, sc.End)
 				return
+			}
+			if c.kind == "blocked" && sc.Early && c.err == nil && c.reply != nil && hsms.FromSystemBytes(c.reply.SystemBytes()) == c.sys {
+				continue // its write completed after all and it received the peer's (early) reply to it: its own reply
 			}
 			if c.kind != "async" {
 				if c.err == nil {
@@ -414,7 +434,11 @@ func TestCheck(t *testing.T) {
 										if c.Expired() {
 											return
 										}
-										one(c, t, scen{active, sync, blocked, async, end, ref, late, ns})
+										one(c, t, scen{Active: active, Sync: sync, Blocked: blocked, Async: async, End: end, Refusals: ref, Late: late, NewSends: ns})
+										if blocked && ns == 2 {
+											// same scenario with the peer's early reply to the blocked send
+											one(c, t, scen{Active: active, Sync: sync, Blocked: true, Early: true, Async: async, End: end, Refusals: ref, Late: late, NewSends: ns})
+										}
 									}
 								}
 							}
